@@ -568,6 +568,13 @@ func (c *c07) buildCases(thorough bool) []*c07Case {
 	}
 	// a bridged denom whose bank metadata already exists (set by bank genesis or another module) before its first deposit
 	for _, r := range recips {
+		// L1 puts no bound on a deposit's payload: large ones (undecodable) must be handled like small ones
+		for _, size := range []int{16 * 1024, 16*1024 + 1, 70_000, 1 << 20} {
+			cs := &c07Case{name: fmt.Sprintf("%s/mid/random-bytes-%d", r.name, size)}
+			cs.msg = e.DepositMsg(ex, seq, "l1sender-big", r.to, "uinit", math.NewInt(1_000_000), c.rng.Bytes(size))
+			cs.expect = "REFUND"
+			cases = append(cases, cs)
+		}
 		for _, payload := range []string{"none", "random-bytes"} {
 			cs := &c07Case{name: r.name + "/mid/" + payload + "/premeta-denom"}
 			cs.msg = e.DepositMsg(ex, seq, "l1sender-premeta", r.to, "upremeta", math.NewInt(1_000_000), nil)
